@@ -259,6 +259,52 @@ def run_case(out, n, plabel, variant, A0, Ad, stored, sub, given, seed):
             except Exception as e:
                 bad('condense+solve', 'exception', repr(e), fname)
             out.outcome(('solve', n, len(Ir)))
+        # expand=False: the caller gets no index set back, so the rows / columns must follow the order in which I was
+        # given (ascending complement when D was given); without b only A_II is returned
+        if fname in ('int64', 'int32'):
+            try:
+                Iord = np.array(sub) if given == 'I' else Iset
+                Dord = np.setdiff1d(full, Iord)
+                Ae_, be_ = condense(A, b, x=x, expand=False, **kw)
+                wantb_ = b0[Iord] - Ad[np.ix_(Iord, Dord)] @ x0[Dord]
+                if not np.array_equal(Ae_.toarray(), Ad[np.ix_(Iord, Iord)]) or not np.array_equal(np.asarray(be_), wantb_):
+                    bad('condense-noexpand', 'order', f"condense(..., expand=False) does not return A[I][:, I], b[I]-A[I,D]x[D] in the "
+                        f"order of the given index set {Iord.tolist()}", fname)
+                Aonly = condense(A, **kw)
+                if sp.issparse(Aonly) and not np.array_equal(Aonly.toarray(), Ad[np.ix_(Iord, Iord)]):
+                    bad('condense-noexpand', 'A-only', "condense(A, I/D) without right-hand side does not return A[I][:, I]", fname)
+            except Exception as e:
+                bad('condense-noexpand', 'exception', repr(e), fname)
+        # data of other dtypes: a float32 load vector with prescribed values that float32 cannot hold, complex prescribed
+        # values with a real system - the condensed rhs and the expanded solution carry full precision / the imaginary part
+        if fname == 'int64':
+            try:
+                b32 = b0.astype(np.float32)
+                xf = x0 + 0.1
+                Ac_, bc_, xr_, Ir_ = condense(A, b32, x=xf, **kw)
+                Ir_ = np.asarray(Ir_)
+                Dr_ = np.setdiff1d(full, Ir_)
+                wb_ = b0[Ir_] - Ad[np.ix_(Ir_, Dr_)].astype(float) @ xf[Dr_]
+                if np.abs(np.asarray(bc_) - wb_).max(initial=0) > 1e-13 * (1 + np.abs(wb_).max(initial=0)):
+                    bad('condense', 'b_I-float32-load', f"float32 load vector: condensed rhs differs from b[I]-A[I,D]x[D] by "
+                        f"{np.abs(np.asarray(bc_) - wb_).max():.3e} (precision of the prescribed values lost)", fname)
+                xc = x0 * (1 + 0.5j)
+                Ac_, bc_, xr_, Ir_ = condense(A, b0.copy(), x=xc, **kw)
+                Ir_ = np.asarray(Ir_)
+                Dr_ = np.setdiff1d(full, Ir_)
+                wb_ = b0[Ir_] - Ad[np.ix_(Ir_, Dr_)].astype(float) @ xc[Dr_]
+                if np.abs(np.asarray(bc_) - wb_).max(initial=0) > 1e-13 * (1 + np.abs(wb_).max(initial=0)):
+                    bad('condense', 'b_I-complex-x', "complex prescribed values: condensed rhs differs from b[I]-A[I,D]x[D]", fname)
+                elif nonsing:
+                    yc = np.asarray(solve(Ac_, bc_, xr_, Ir_))
+                    if not np.iscomplexobj(yc) or np.abs(yc[Dr_] - xc[Dr_]).max(initial=0) > 1e-12 * (1 + np.abs(xc).max()):
+                        bad('condense+solve', 'complex-x-on-D', f"complex prescribed values with a real matrix: the expanded solution "
+                            f"has {yc[Dr_].tolist()} on the constrained indices, prescribed {xc[Dr_].tolist()}", fname)
+                    r_ = (Ad.astype(float) @ yc - b0)[Ir_]
+                    if np.abs(r_).max(initial=0) > 1e-8 * (1 + np.abs(yc).max()) * (1 + np.abs(Ad).max()):
+                        bad('condense+solve', 'complex-kept-equations', "complex prescribed values: kept equations violated", fname)
+            except Exception as e:
+                bad('condense', 'dtype-exception', repr(e), fname)
         # matrix rhs (generalised eigenproblem) + expansion with a stub solver
         try:
             Ac2, Mc2, xr2, Ir2 = condense(A, M0, x=x, **kw)
